@@ -3,6 +3,7 @@ package main
 import (
 	"fmt"
 	"net/netip"
+	"strings"
 	"time"
 )
 
@@ -198,6 +199,9 @@ func runC11(o Opts) error {
 		}
 	}
 	apiCase(s, Cfg{}, gd, Script{Kind: "error"}, "discovery/driver-error", nil, false)
+	if o.Replay == "" {
+		netC11(s, o.Tier)
+	}
 	return s.Close()
 }
 
@@ -250,4 +254,43 @@ func netC03(s *Sink, tier string) {
 	}
 	s.Extra["net_calls"] = calls
 	s.Extra["net_malformed_accepted"] = accepted
+}
+
+// socket-level half of C11: the REAL driver's Broadcast on loopback - six controllers answer 15 ms apart, optionally with
+// datagrams that are not discovery replies in between; the result lists exactly the six, in arrival order, each with the
+// address of its reply completed with the broadcast port
+func netC11(s *Sink, tier string) {
+	farm, err := NewFarm()
+	if err != nil {
+		s.Extra["net_stream"] = "skipped: " + err.Error()
+		return
+	}
+	defer farm.Close()
+	rounds := 2
+	if tier == "thorough" {
+		rounds = 20
+	}
+	for round := 0; round < rounds; round++ {
+		farm.DiscoveryNoise = round%2 == 1
+		u := farmClient(farm, 0, 250*time.Millisecond, nil, nil)
+		devs, err := u.GetDevices()
+		js := map[string]any{"op": "net-discovery", "noise": farm.DiscoveryNoise}
+		if err != nil {
+			s.Fail(js, fmt.Sprintf("GetDevices failed although controllers answered: %v", err))
+			continue
+		}
+		got := []string{}
+		for _, d := range devs {
+			got = append(got, fmt.Sprintf("%d@%v/%v", d.SerialNumber, d.IpAddress, d.Address))
+		}
+		want := []string{}
+		for k := 0; k < 6; k++ {
+			want = append(want, fmt.Sprintf("%d@192.168.1.%d/192.168.1.%d:%d", 405419896+k, k+1, k+1, farm.Port))
+		}
+		if strings.Join(got, " ") != strings.Join(want, " ") {
+			js["got"], js["want"] = got, want
+			s.Fail(js, "discovery over real sockets did not return exactly the controllers that answered, in arrival order")
+		}
+	}
+	s.Extra["net_discovery_rounds"] = rounds
 }
